@@ -3,58 +3,29 @@
 // (appends this test to the harness module in a scratch overlay of /repo and runs `cargo kani playback`).
 /// Test generated for harness `k_c05_lib::c05_q_from_sparse_3` 
 ///
-/// Check for `assertion`: "attempt to subtract with overflow"
+/// Check for `assertion`: ""from_sparse places every cell at its position, default elsewhere""
 
 #[test]
-fn kani_concrete_playback_c05_q_from_sparse_3_13544777646551612017() {
+fn kani_concrete_playback_c05_q_from_sparse_3_10005943911417759190() {
     let concrete_vals: Vec<Vec<u8>> = vec![
-        // 1915636735
-        vec![255, 75, 46, 114],
-        // 3221225472
-        vec![0, 0, 0, 192],
-        // 0ul
-        vec![0, 0, 0, 0, 0, 0, 0, 0],
-        // 1915636736
-        vec![0, 76, 46, 114],
-        // 3221225471
-        vec![255, 255, 255, 191],
-        // 0ul
-        vec![0, 0, 0, 0, 0, 0, 0, 0],
-        // 1915636736
-        vec![0, 76, 46, 114],
-        // 3221225470
-        vec![254, 255, 255, 191],
-        // 0ul
-        vec![0, 0, 0, 0, 0, 0, 0, 0],
-    ];
-    kani::concrete_playback_run(concrete_vals, c05_q_from_sparse_3);
-}
-
-/// Test generated for harness `k_c05_lib::c05_q_from_sparse_3` 
-///
-/// Check for `assertion`: ""tight bounding box: end""
-
-#[test]
-fn kani_concrete_playback_c05_q_from_sparse_3_2461390617516322194() {
-    let concrete_vals: Vec<Vec<u8>> = vec![
-        // 520093695
-        vec![255, 255, 255, 30],
-        // 4286578689
-        vec![1, 0, 128, 255],
-        // 0ul
-        vec![0, 0, 0, 0, 0, 0, 0, 0],
-        // 520093696
-        vec![0, 0, 0, 31],
-        // 4286578687
-        vec![255, 255, 127, 255],
-        // 0ul
-        vec![0, 0, 0, 0, 0, 0, 0, 0],
-        // 520093696
-        vec![0, 0, 0, 31],
-        // 4286578688
-        vec![0, 0, 128, 255],
-        // 0ul
-        vec![0, 0, 0, 0, 0, 0, 0, 0],
+        // 4021813175
+        vec![183, 255, 183, 239],
+        // 268435456
+        vec![0, 0, 0, 16],
+        // 9223372036854808578ul
+        vec![2, 128, 0, 0, 0, 0, 0, 128],
+        // 4021813175
+        vec![183, 255, 183, 239],
+        // 268435456
+        vec![0, 0, 0, 16],
+        // 3ul
+        vec![3, 0, 0, 0, 0, 0, 0, 0],
+        // 4021813175
+        vec![183, 255, 183, 239],
+        // 268435454
+        vec![254, 255, 255, 15],
+        // 9223372036854808576ul
+        vec![0, 128, 0, 0, 0, 0, 0, 128],
     ];
     kani::concrete_playback_run(concrete_vals, c05_q_from_sparse_3);
 }
@@ -64,24 +35,24 @@ fn kani_concrete_playback_c05_q_from_sparse_3_2461390617516322194() {
 /// Check for `cover`: "end"
 
 #[test]
-fn kani_concrete_playback_c05_q_from_sparse_3_825236551933282226() {
+fn kani_concrete_playback_c05_q_from_sparse_3_16219036227311135790() {
     let concrete_vals: Vec<Vec<u8>> = vec![
-        // 2147483647
-        vec![255, 255, 255, 127],
-        // 3724541952
-        vec![0, 0, 0, 222],
-        // 0ul
-        vec![0, 0, 0, 0, 0, 0, 0, 0],
-        // 2147483647
-        vec![255, 255, 255, 127],
-        // 3724541951
-        vec![255, 255, 255, 221],
-        // 0ul
-        vec![0, 0, 0, 0, 0, 0, 0, 0],
-        // 2147483648
-        vec![0, 0, 0, 128],
-        // 3724541952
-        vec![0, 0, 0, 222],
+        // 2664989438
+        vec![254, 130, 216, 158],
+        // 3825205248
+        vec![0, 0, 0, 228],
+        // 18446744073709551613ul
+        vec![253, 255, 255, 255, 255, 255, 255, 255],
+        // 2664989440
+        vec![0, 131, 216, 158],
+        // 3825205247
+        vec![255, 255, 255, 227],
+        // 18446744073709551614ul
+        vec![254, 255, 255, 255, 255, 255, 255, 255],
+        // 2664989440
+        vec![0, 131, 216, 158],
+        // 3825205249
+        vec![1, 0, 0, 228],
         // 0ul
         vec![0, 0, 0, 0, 0, 0, 0, 0],
     ];
